@@ -97,6 +97,9 @@ func (m mapImporter) Import(path string) (*types.Package, error) {
 	if p, ok := m[path]; ok {
 		return p, nil
 	}
+	if path == "unsafe" {
+		return types.Unsafe, nil
+	}
 	return nil, fmt.Errorf("package %q not available", path)
 }
 
@@ -154,6 +157,11 @@ func buildModule(dir string, modpath string, mode ir.BuilderMode) (*token.FileSe
 	if err := types.NewChecker(&types.Config{Importer: imp}, fset, tp, info).Files(files); err != nil {
 		die("typecheck: %v", err)
 	}
+	for _, ip := range tp.Imports() {
+		if ip == types.Unsafe {
+			prog.CreatePackage(types.Unsafe, nil, nil, true)
+		}
+	}
 	mainPkg := prog.CreatePackage(tp, files, info, false)
 	prog.Build()
 	return fset, append([]*ir.Package{mainPkg}, pkgs...)
@@ -169,7 +177,7 @@ type domEntry struct {
 
 func relocate(v Val, base int) Val {
 	switch v.K {
-	case "ptr", "slice", "map":
+	case "ptr", "slice", "map", "chan":
 		if v.I > 0 {
 			v.I += int64(base)
 		}
@@ -217,7 +225,15 @@ func (nx *nilExp) domain(t types.Type) []domEntry {
 		if hasUnsup(z) != "" {
 			return nil
 		}
-		return []domEntry{{V: ptrV(0), Go: "(" + ts + ")(nil)"}, {V: ptrV(1), Cells: []Val{z}, Go: "new(" + nx.ts(u.Elem()) + ")"}}
+		out := []domEntry{{V: ptrV(0), Go: "(" + ts + ")(nil)"}, {V: ptrV(1), Cells: []Val{z}, Go: "new(" + nx.ts(u.Elem()) + ")"}}
+		if containsPtrLike(u.Elem()) {
+			// a third entry whose pointee holds non-nil pointer-likes (fields / elements / the pointee itself)
+			var cb cellBuilder
+			if v, g, ok := nx.rich(&cb, t, richDepth); ok {
+				out = append(out, domEntry{V: v, Cells: cb.cells, Go: g})
+			}
+		}
+		return out
 	case *types.Slice:
 		z := zero(u.Elem())
 		if hasUnsup(z) != "" {
@@ -227,15 +243,40 @@ func (nx *nilExp) domain(t types.Type) []domEntry {
 		arr.E = []Val{z}
 		s := mk("slice")
 		s.I, s.B, s.C = 1, 1, 1
-		return []domEntry{{V: mk("slice"), Go: "(" + ts + ")(nil)"}, {V: s, Cells: []Val{arr}, Go: "make(" + ts + ", 1)"}}
+		out := []domEntry{{V: mk("slice"), Go: "(" + ts + ")(nil)"}, {V: s, Cells: []Val{arr}, Go: "make(" + ts + ", 1)"}}
+		if containsPtrLike(u.Elem()) {
+			var cb cellBuilder
+			if v, g, ok := nx.rich(&cb, t, richDepth); ok {
+				out = append(out, domEntry{V: v, Cells: cb.cells, Go: g})
+			}
+		}
+		return out
 	case *types.Map:
 		m := mk("map")
 		m.I = 1
-		return []domEntry{{V: mk("map"), Go: "(" + ts + ")(nil)"}, {V: m, Cells: []Val{mk("mapobj")}, Go: "make(" + ts + ")"}}
+		out := []domEntry{{V: mk("map"), Go: "(" + ts + ")(nil)"}, {V: m, Cells: []Val{mk("mapobj")}, Go: "make(" + ts + ")"}}
+		// one-entry maps: the key is the second value of the key type's domain; the element is zero (a nil
+		// entry that IS present: comma-ok lookups yield (nil, true)) and, for pointer-like elements, non-nil
+		if kv, kg, ok := richBasic(u.Key(), nx.ts(u.Key())); ok {
+			if z := zero(u.Elem()); hasUnsup(z) == "" {
+				mo := mk("mapobj")
+				ent := mk("tuple")
+				ent.E = []Val{kv, z}
+				mo.E = []Val{ent}
+				out = append(out, domEntry{V: m, Cells: []Val{mo}, Go: ts + "{" + kg + ": *new(" + nx.ts(u.Elem()) + ")}"})
+			}
+			if containsPtrLike(u.Elem()) {
+				var cb cellBuilder
+				if v, g, ok := nx.rich(&cb, t, richDepth); ok {
+					out = append(out, domEntry{V: v, Cells: cb.cells, Go: g})
+				}
+			}
+		}
+		return out
 	case *types.Chan:
 		c := mk("chan")
 		c.I = 1
-		return []domEntry{{V: mk("chan"), Go: "(" + ts + ")(nil)"}, {V: c, Go: "make(" + ts + ")"}}
+		return []domEntry{{V: mk("chan"), Go: "(" + ts + ")(nil)"}, {V: c, Cells: []Val{mk("chanobj")}, Go: "make(" + ts + ")"}}
 	case *types.Signature:
 		return []domEntry{{V: mk("func"), Go: "(" + ts + ")(nil)"}}
 	case *types.Struct, *types.Array:
@@ -243,7 +284,14 @@ func (nx *nilExp) domain(t types.Type) []domEntry {
 		if hasUnsup(z) != "" {
 			return nil
 		}
-		return []domEntry{{V: z, Go: ts + "{}"}}
+		out := []domEntry{{V: z, Go: "*new(" + ts + ")"}}
+		if containsPtrLike(t) {
+			var cb cellBuilder
+			if v, g, ok := nx.rich(&cb, t, richDepth); ok {
+				out = append(out, domEntry{V: v, Cells: cb.cells, Go: g})
+			}
+		}
+		return out
 	case *types.Interface:
 		out := []domEntry{{V: mk("iface"), Go: "(" + ts + ")(nil)"}}
 		for _, tn := range nx.named {
@@ -287,6 +335,172 @@ func (nx *nilExp) domain(t types.Type) []domEntry {
 	return nil
 }
 
+const richDepth = 2
+
+// containsPtrLike: t is pointer-like or an aggregate with a pointer-like part.
+func containsPtrLike(t types.Type) bool {
+	switch u := types.Unalias(t).Underlying().(type) {
+	case *types.Pointer, *types.Slice, *types.Map, *types.Chan, *types.Signature, *types.Interface:
+		return true
+	case *types.Basic:
+		return u.Kind() == types.UnsafePointer
+	case *types.Struct:
+		for i := 0; i < u.NumFields(); i++ {
+			if containsPtrLike(u.Field(i).Type()) {
+				return true
+			}
+		}
+	case *types.Array:
+		return u.Len() > 0 && containsPtrLike(u.Elem())
+	}
+	return false
+}
+
+// cellBuilder collects the heap cells of one domain entry; addresses are 1-based and entry-relative
+// (relocate shifts them when the entry is placed into a run).
+type cellBuilder struct{ cells []Val }
+
+func (b *cellBuilder) alloc(v Val) int {
+	b.cells = append(b.cells, v)
+	return len(b.cells)
+}
+
+func richBasic(t types.Type, ts string) (Val, string, bool) {
+	if b, ok := types.Unalias(t).Underlying().(*types.Basic); ok {
+		switch {
+		case b.Info()&types.IsInteger != 0:
+			return intV(1), ts + "(1)", true
+		case b.Info()&types.IsBoolean != 0:
+			return boolV(true), ts + "(true)", true
+		case b.Info()&types.IsString != 0:
+			return strV("a"), ts + `("a")`, true
+		}
+	}
+	return Val{}, "", false
+}
+
+// rich yields a value of type t in which every pointer-like part is non-nil (down to the given depth; below it
+// parts are zero), together with the Go expression that builds the same value natively.  ok = false when no such
+// value can be written (func values, structs of other packages with unexported fields, unmodelled types).
+func (nx *nilExp) rich(b *cellBuilder, t types.Type, depth int) (Val, string, bool) {
+	ts := nx.ts(t)
+	zeroOf := func(t types.Type) (Val, string, bool) {
+		z := zero(t)
+		return z, "*new(" + nx.ts(t) + ")", hasUnsup(z) == ""
+	}
+	part := func(t types.Type) (Val, string, bool) {
+		if depth > 0 {
+			if v, g, ok := nx.rich(b, t, depth-1); ok {
+				return v, g, true
+			}
+		}
+		return zeroOf(t)
+	}
+	switch u := types.Unalias(t).Underlying().(type) {
+	case *types.Basic:
+		return richBasic(t, ts)
+	case *types.Pointer:
+		ev, eg, ok := part(u.Elem())
+		if !ok {
+			return Val{}, "", false
+		}
+		return ptrV(b.alloc(ev)), "mkp[" + nx.ts(u.Elem()) + "](" + eg + ")", true
+	case *types.Slice:
+		ev, eg, ok := part(u.Elem())
+		if !ok {
+			return Val{}, "", false
+		}
+		arr := mk("array")
+		arr.E = []Val{ev}
+		s := mk("slice")
+		s.I, s.B, s.C = int64(b.alloc(arr)), 1, 1
+		return s, ts + "{" + eg + "}", true
+	case *types.Map:
+		kv, kg, ok := richBasic(u.Key(), nx.ts(u.Key()))
+		if !ok {
+			return Val{}, "", false
+		}
+		ev, eg, ok := part(u.Elem())
+		if !ok {
+			return Val{}, "", false
+		}
+		ent := mk("tuple")
+		ent.E = []Val{kv, ev}
+		mo := mk("mapobj")
+		mo.E = []Val{ent}
+		m := mk("map")
+		m.I = int64(b.alloc(mo))
+		return m, ts + "{" + kg + ": " + eg + "}", true
+	case *types.Struct:
+		if n, ok := types.Unalias(t).(*types.Named); ok && n.Obj().Pkg() != nil && n.Obj().Pkg() != nx.main {
+			for i := 0; i < u.NumFields(); i++ {
+				if !u.Field(i).Exported() {
+					return Val{}, "", false
+				}
+			}
+		}
+		v := mk("struct")
+		var fs []string
+		for i := 0; i < u.NumFields(); i++ {
+			f := u.Field(i)
+			if f.Name() == "_" {
+				z, _, ok := zeroOf(f.Type())
+				if !ok {
+					return Val{}, "", false
+				}
+				v.E = append(v.E, z)
+				continue
+			}
+			fv, fg, ok := part(f.Type())
+			if !ok {
+				return Val{}, "", false
+			}
+			v.E = append(v.E, fv)
+			fs = append(fs, f.Name()+": "+fg)
+		}
+		return v, ts + "{" + strings.Join(fs, ", ") + "}", true
+	case *types.Array:
+		if u.Len() > 4 {
+			return Val{}, "", false
+		}
+		v := mk("array")
+		var es []string
+		for i := int64(0); i < u.Len(); i++ {
+			ev, eg, ok := part(u.Elem())
+			if !ok {
+				return Val{}, "", false
+			}
+			v.E = append(v.E, ev)
+			es = append(es, eg)
+		}
+		return v, ts + "{" + strings.Join(es, ", ") + "}", true
+	case *types.Interface:
+		for _, tn := range nx.named {
+			pc := types.NewPointer(tn.Type())
+			if types.Implements(pc, u) {
+				pv, pg, ok := nx.rich(b, pc, 0)
+				if !ok {
+					continue
+				}
+				nx.ex.addRTWithMethods(pc)
+				a := mk("iface")
+				a.T = typeTag(pc)
+				a.E = []Val{pv}
+				return a, ts + "(" + pg + ")", true
+			}
+		}
+		if u.NumMethods() == 0 {
+			pi := types.NewPointer(types.Typ[types.Int])
+			nx.ex.addRTWithMethods(pi)
+			a := mk("iface")
+			a.T = typeTag(pi)
+			a.E = []Val{ptrV(b.alloc(intV(0)))}
+			return a, ts + "(new(int))", true
+		}
+	}
+	return Val{}, "", false
+}
+
 type nilParam struct {
 	name string // "" for parameters, Go lvalue for globals
 	gidx int    // heap address of the global (0 for parameters)
@@ -319,7 +533,7 @@ func cmdNilExport(args []string) {
 	fs.Parse(args)
 	fset, pkgs := buildModule(*dir, *mod, ir.GlobalDebug)
 	mainPkg := pkgs[0]
-	ex := &exporter{prog: mainPkg.Prog, pkg: mainPkg, pkgs: map[*ir.Package]bool{}, fnIdx: map[*ir.Function]int{}, globIdx: map[*ir.Global]int{}, rtSeen: map[string]bool{}, fset: fset}
+	ex := &exporter{prog: mainPkg.Prog, pkg: mainPkg, pkgs: map[*ir.Package]bool{}, fnIdx: map[*ir.Function]int{}, globIdx: map[*ir.Global]int{}, rtSeen: map[string]bool{}, fset: fset, chans: true}
 	for _, p := range pkgs {
 		ex.pkgs[p] = true
 	}
@@ -435,6 +649,7 @@ func pI(x any) {
 	print(" 0:0")
 }
 func pV() { print(" 0:2") }
+func mkp[T any](v T) *T { return &v }
 
 `)
 	var mainBody strings.Builder
@@ -469,8 +684,11 @@ func pV() { print(" 0:2") }
 			for _, q := range all {
 				e := q.dom[rem%len(q.dom)]
 				rem /= len(q.dom)
-				v := relocate(e.V, nglob+len(run.Cells))
-				run.Cells = append(run.Cells, e.Cells...)
+				base := nglob + len(run.Cells)
+				v := relocate(e.V, base)
+				for _, c := range e.Cells {
+					run.Cells = append(run.Cells, relocate(c, base))
+				}
 				if q.gidx == 0 {
 					run.Args = append(run.Args, v)
 					goArgs = append(goArgs, e.Go)
